@@ -158,7 +158,19 @@ def run_case(seed, max_layers=5):
     if base is not None and 'construct_err' not in base and len(flat) >= 2:
         from connectome.layers.base import chained
         k = rng.randint(1, len(flat) - 1)
-        derived = [('slice [:]', lambda: b.c.Chain(*objs)[:]),
+        def augmented():
+            # `p >>= layer` builds a new pipeline and leaves every other holder of `p` alone
+            p0 = b.c.Chain(*objs[:k]) if k > 1 else objs[0]
+            held = p0
+            before_ = canon(slim(observe(b, held, NAMES, hashes=True), attrs=False)) if callable_kind(flat[0]) else None
+            p0 >>= objs[k]
+            for x in objs[k + 1:]:
+                p0 >>= x
+            after_ = canon(slim(observe(b, held, NAMES, hashes=True), attrs=False)) if before_ is not None else None
+            if before_ != after_:
+                raise AssertionError('`p >>= layer` changed the pipeline another variable still refers to')
+            return p0
+        derived = [('p >>= layer', augmented), ('slice [:]', lambda: b.c.Chain(*objs)[:]),
                    ('slice [:k] >> rest', lambda: b.c.Chain(*(list(b.c.Chain(*objs)[:k]._layers) + objs[k:]))),
                    ('slice [:k][:] + rest', lambda: b.c.Chain(b.c.Chain(*objs)[:k][:], *objs[k:]))]
         if flat[0]['k'] in ('source', 'transform'):
